@@ -611,8 +611,15 @@ def gen_loop_scenario(rng: random.Random) -> dict:
     depth_path = rng.choice([[0], [0], [0, 0], [0, 0], [0, 0, 0]])
     k = rng.choice([2, 2, 3])
     sims = [{"type": rng.choice(["event-based", "hybrid"]), "group": list(depth_path), "init_ev": None} for _ in range(k)]
-    sims[0]["type"] = "event-based"
-    sims[0]["init_ev"] = rng.choice([0, 0, 1, 2])
+    # the loop head is event-based (started by an initial event) or hybrid (steps at time 0 by itself)
+    if rng.random() < 0.5:
+        sims[0]["type"] = "event-based"
+        sims[0]["init_ev"] = rng.choice([0, 0, 1, 2])
+    else:
+        sims[0]["type"] = "hybrid"
+        if rng.random() < 0.5:
+            for s_ in sims[1:]:
+                s_["type"] = "hybrid"          # an all-hybrid loop
     connects = []
     for i in range(k):
         weak = i == k - 1
